@@ -57,6 +57,12 @@ def run(ctx):
                 for vb in vals:
                     for r in C16.RNDS:
                         add("round", sl, [r, "u", FC.hexbits(vb, ty)], (ty, bs, q, u, r, vb))
+            for qm, alias in C07.QUANTS[:2]:
+                sl = slot(B.same_slot(qm, alias, bs, ty))
+                rng = ctx.rng.fork(f"c:{ty}:{bs}:{qm}")
+                from . import c10 as C10
+                for (x, y, z) in C10.gen_pairs(rng, ty, 10 if quick else 100):
+                    add("cmp", sl, ["row", VG.val_text(ty, x), VG.val_text(ty, y), VG.val_text(ty, z)], (ty, bs, t.qmap[qm], None, "row", (x, y)))
             for qm, alias in C07.QUANTS:
                 sl = slot(C07.hist_slot(qm, alias, bs, ty))
                 rng = ctx.rng.fork(f"h:{ty}:{bs}:{qm}")
